@@ -50,7 +50,7 @@ def main():
         for d in demos:
             if d == "demo.sh":
                 shutil.copy(f"{stash}/{var}/demo.sh", f"{wt}/demo.sh")
-                rc, out = sh("sh demo.sh", wt)
+                rc, out = sh(f"sh demo.sh {wt}", wt)
                 os.remove(f"{wt}/demo.sh")
             else:
                 shutil.copy(f"{stash}/{var}/{d}", f"{wt}/zz_{d}")
